@@ -7,17 +7,7 @@ import subprocess
 VERIF = os.path.dirname(os.path.dirname(os.path.abspath(__file__)))
 
 # property -> (level text, level note, technique, design ref)
-CLAIMED = {
-    'C01': ('Lean 4 theorems (Fca.C01.*): for every well-formed table, every in-range selection and base list and each of '
-            'the three backend models, extension_i/intention_i/monotone variants equal the order-preserving prime-set '
-            'filter; by-name wrappers return the name image or KeyError. FULL. The models mirror bintable.py / '
-            'formal_context.py line by line (early breaks, masks, index pairing) and are tied to /repo on every run by '
-            'exhaustive small-scope + seeded random differential execution (1.8M evaluations in the quick tier).',
-            'Trusted: Lean kernel; axioms propext/Classical.choice/Quot.sound; the correspondence check (agreement on '
-            'explored inputs); CPython/bitarray/numpy primitives modelled by their contracts.',
-            'Lean 4 proof of a hand-written model + differential correspondence check against the real code',
-            'DESIGN.md section 7, C01'),
-}
+CLAIMED = {k: tuple(v) for k, v in json.load(open(os.path.join(VERIF, 'tools', 'claims.json'))).items()}
 
 NOT_YET = 'check not built yet in this phase of the work (see DESIGN.md section 10 build order); not claimed'
 
